@@ -689,7 +689,7 @@ pub fn npo_cells_run(ctx: &Ctx, idx: u64, out: &mut RunOut) {
 }
 
 /// (merkle_path, new_start) of every permutation row of the circuit's Poseidon1 / Poseidon2 table.
-fn perm_row_flags<F: p3_field::Field, EF: p3_field::ExtensionField<F>>(traces: &p3_circuit::tables::Traces<EF>, cfg: p3_circuit::ops::PermConfig) -> Option<Vec<(bool, bool)>> {
+pub(crate) fn perm_row_flags<F: p3_field::Field, EF: p3_field::ExtensionField<F>>(traces: &p3_circuit::tables::Traces<EF>, cfg: p3_circuit::ops::PermConfig) -> Option<Vec<(bool, bool)>> {
     use p3_circuit::ops::{NpoTypeId, PermConfig, Poseidon1Trace, Poseidon2Trace};
     match cfg {
         PermConfig::Poseidon2(c) => traces.non_primitive_trace::<Poseidon2Trace<F>>(&NpoTypeId::poseidon2_perm(c)).map(|t| t.operations.iter().map(|o| (o.merkle_path, o.new_start)).collect()),
@@ -1099,7 +1099,9 @@ pub fn main(ctx: &Ctx) -> i32 {
             let mut out = RunOut::default();
             if d["sponge"].as_bool() == Some(true) {
                 let only = d["call"].as_u64().zip(d["limb"].as_u64()).map(|(c, l)| (c as usize, l as usize));
-                if d["merkle"].as_bool() == Some(true) {
+                if d["a4"].as_bool() == Some(true) {
+                    crate::props::c04sponge::run_a4(&rctx, idx, only, &mut out);
+                } else if d["merkle"].as_bool() == Some(true) {
                     crate::props::c04sponge::run_merkle(&rctx, idx, only, &mut out);
                 } else {
                     crate::props::c04sponge::run(&rctx, idx, only, &mut out);
@@ -1133,6 +1135,7 @@ pub fn main(ctx: &Ctx) -> i32 {
         if prop == "C04" && idx % 4 == 3 {
             crate::props::c04sponge::run(ctx, idx, None, &mut out);
             crate::props::c04sponge::run_merkle(ctx, idx, None, &mut out);
+            crate::props::c04sponge::run_a4(ctx, idx, None, &mut out);
         }
         let mut d = crate::core::prng::Digest::new();
         d.u64(out.evals);
